@@ -1,6 +1,7 @@
 // C11 / C01 harness for the CLOSED legalizer model (coq/CellOrder.v): the real LegalizerBase::computeCellOrder and
 // Circuit::legalize from /repo's working tree, ordering parameters given as fractions
 //   order gen rand SEED COUNT       case lines
+//   order gen randf SEED COUNT      case lines with NON-dyadic parameters, small circuits (binary32 tie, checks/c11_order.py float_tie)
 //   order run < cases
 // case:   "OR <rows> <cells> wn wd yn yd hn hd effort"   orderingWidth = wn/wd, orderingY = yn/yd, orderingHeight = hn/hd
 //         (computed as (double)n / (double)d: exact when d is a power of two)
@@ -29,8 +30,43 @@ static void genParams(SplitMix &g, long long out[6]) {
   }
 }
 
+// NON-dyadic parameters for the binary32 tie (coq/CellOrderFloat.v cell_order_f, evaluated inside Coq): thirds, fifths, sevenths,
+// tenths, twentieths, hundredths; orderingWidth in [0,1] (80 %) or over [-1,2], orderingY in [-0.2,0.2], orderingHeight in [-4,4]
+// (75 %: the domain of the theorems) or up to +-64 (ties / inversions of the rounded keys become frequent)
+static void genParamsF(SplitMix &g, long long out[6]) {
+  static const long long dens[6] = {3, 5, 7, 10, 20, 100};
+  long long wd = dens[g.uni(0, 5)], yd = dens[g.uni(0, 5)], hd = dens[g.uni(0, 5)];
+  out[0] = g.coin(80) ? g.uni(0, wd) : g.uni(-wd, 2 * wd); out[1] = wd;
+  out[2] = g.coin(40) ? 0 : g.uni(-(yd / 5), yd / 5); out[3] = yd;
+  out[4] = g.coin(75) ? g.uni(-4 * hd, 4 * hd) : g.uni(-64 * hd, 64 * hd); out[5] = hd;
+}
+
 int main(int argc, char **argv) {
   std::string mode = argc > 1 ? argv[1] : "run";
+  if (mode == "gen" && argc > 4 && std::string(argv[2]) == "randf") {
+    SplitMix g(strtoull(argv[3], nullptr, 10)); long long count = atoll(argv[4]);
+    for (long long it = 0; it < count; ++it) {
+      GenOpts o; o.multirow = false; o.maxCells = 8;            // row-high designs, small (vm_compute inside Coq)
+      int kind = (int)g.uni(0, 9);
+      if (kind == 0) o.multirow = true;                         // a few general designs
+      if (kind == 1 || kind == 2) o.tile = true;                // legal, exactly tiled rows: neighbours at distance = width
+      if (kind == 3) { o.utilLo = 5; o.utilHi = 45; }
+      int sk = (int)g.uni(0, 9);
+      if (sk < 3) o.scale = 1; else if (sk < 6) o.scale = 1LL << g.uni(1, 9); else if (sk < 9) o.scale = 1LL << g.uni(10, 13);
+      else o.scale = 1LL << g.uni(14, 17);                      // beyond 2^20: int -> float conversions round
+      TCircuit t = genCircuit(g, o);
+      // half of the cases: the whole design translated far away (|offset| up to 2^20 .. 2^28) with the spacing kept: neighbouring
+      // keys differ by a few units at a magnitude where binary32 has ulp 1/8 .. 32 (roundings, ties and int -> float conversions matter)
+      if (g.coin(50)) {
+        long long m = 1LL << g.uni(20, 28), dx = g.uni(-m, m), dy = g.coin(50) ? 0 : g.uni(-m, m);
+        for (auto &r : t.rows) { r[0] += dx; r[1] += dx; r[2] += dy; r[3] += dy; }
+        for (auto &c : t.cells) { c[0] += dx; c[1] += dy; }
+      }
+      long long p[6]; genParamsF(g, p);
+      printf("OR %s %lld %lld %lld %lld %lld %lld %d\n", showRowsCells(t).c_str(), p[0], p[1], p[2], p[3], p[4], p[5], (int)g.uni(1, 9));
+    }
+    return 0;
+  }
   if (mode == "gen") {
     SplitMix g(strtoull(argv[3], nullptr, 10)); long long count = atoll(argv[4]);
     for (long long it = 0; it < count; ++it) {
